@@ -44,7 +44,7 @@ def _dir():
 # ----------------------------------------------------------------------------------------------- tables
 def make_table(n, tseed, comma_ok=True):
     """n rows; every column but `bv` is injective.  Strings start with a letter and end with a digit, so they are
-    never numeric, boolean or one of pandas' NA tokens; no tabs, quotes, newlines (guard of DESIGN C13).  Floats have
+    never numeric, boolean or one of pandas' NA tokens; no tabs or newlines (guard of DESIGN C13); double quotes in a quarter of the tables.  Floats have
     <= 12 significant digits (shortest repr, parsed back exactly)."""
     rng = np.random.default_rng(1000003 * int(tseed) + n)
     style = int(tseed) % 4
@@ -53,7 +53,8 @@ def make_table(n, tseed, comma_ok=True):
     m2 = rng.permutation(4 * n + 8)[:n].astype(np.int64) - 2 * n
     fv = (m2 / 8.0) if style < 2 else np.round(m2 * 0.37 + 0.001, 6)
     alpha = "abcdefghijklmnopqrstuvwxyzABCDEFGHIJKLMNOPQRSTUVWXYZ"
-    tail = " abcXYZ.-_;:/()[]+*#%0123456789" + ("," if comma_ok else "") + "éß中"
+    # (style 2: double quotes inside the strings -- a delimited-text writer quotes such a field and the reader must undo exactly that)
+    tail = " abcXYZ.-_;:/()[]+*#%0123456789" + ("," if comma_ok else "") + "éß中" + ('"' if style == 2 else "")
     suf = rng.permutation(10 * n + 10)[:n]
     sv = []
     for i in range(n):
